@@ -12,7 +12,7 @@ import sys
 
 sys.path.insert(0, os.path.join(os.path.dirname(os.path.abspath(__file__)), ".."))
 from framework import Check, drive, hexs  # noqa: E402
-from lib import BASE, C, Peer, RawSession, mkserver, com_query, com_stmt_execute  # noqa: E402
+from lib import BASE, C, Peer, RawSession, mkserver, com_query, com_stmt_execute, pkt, settle  # noqa: E402
 from paramgen import gen_param, gen_name, canon_attrs, expected_value  # noqa: E402
 
 SQLS = [b"select 1", b"\x00abc", b"\x01\x01select", b"\x02x", b"", b"select '\xc3\xa9'", b"select ? from t", b"  ", b"\x00\x01\x01\x00"]
@@ -178,6 +178,60 @@ async def charset_switch(chk, rng, count):
                      dict(received=got[0][1], expected=want_sql))
 
 
+async def after_failed_execution(chk, rng, count):
+    """a statement executed again after an execution that failed in the application (or was given long data that the failed
+    execution consumed): the second COM_STMT_EXECUTE is self-contained -- its inline parameters and its attributes reach the
+    application exactly as sent, whatever the first one left behind"""
+    for i in range(count):
+        caps = BASE | C.CLIENT_QUERY_ATTRIBUTES
+        state = dict(fail=False)
+
+        def result(sess, sql, attrs, state=state):
+            if state["fail"]:
+                state["fail"] = False
+                from mysql_mimic.errors import MysqlError, ErrorCode
+                raise rng.choice([RuntimeError("application failure"), MysqlError("no", code=ErrorCode.PARSE_ERROR)])
+            return [(1,)], ["a"]
+        s = RawSession(result=result)
+        srv = mkserver([s])
+        a = Peer(srv)
+        await a.login(caps=caps)
+        nparams = rng.choice([1, 2])
+        o = await a.cmd(b"\x16select " + b", ".join([b"?"] * nparams) + b" from t")
+        sid = struct.unpack_from("<I", o[0][1], 1)[0]
+        long_data = rng.random() < 0.7
+        first_inline = [(253, False, b"first%d" % k, b"") for k in range(nparams)]
+        skip = []
+        if long_data:
+            a.t.feed(pkt(0, b"\x18" + struct.pack("<IH", sid, 0) + b"long-first"))      # COM_STMT_SEND_LONG_DATA has no response
+            await settle(5)
+            skip = [0]
+        first_fails = rng.random() < 0.7
+        state["fail"] = first_fails
+        await a.cmd(com_stmt_execute(sid, first_inline, caps=caps, attrs=[(253, False, b"a1", b"k")], skip=skip), n=30)
+        between = rng.choice([None, None, "ping"])
+        if between == "ping":
+            await a.cmd(b"\x0e", n=20)
+        second_inline = [(253, False, b"second%d" % k, b"") for k in range(nparams)]
+        attrs = [(253, False, b"req-2", b"request_id"), (253, False, b"alice", b"user")]
+        before = len(s.log)
+        out = await a.cmd(com_stmt_execute(sid, second_inline, caps=caps, attrs=attrs), n=30)
+        got = [l for l in s.log[before:] if l[0] == "hq"]
+        await a.finish()
+        desc = dict(params=nparams, long_data_before_first=long_data, first_execution_failed=first_fails, between=between)
+        chk.count("re-execute after %s" % ("failure" if first_fails else "success"))
+        chk.case(("reexec", nparams, long_data, first_fails, between, i))
+        want_sql = "select " + ", ".join("'second%d'" % k for k in range(nparams)) + " from t"
+        if len(got) != 1:
+            chk.fail("a re-executed statement with attributes did not reach the application exactly once", desc, dict(reply=[p[:60] for _, p in out][:1]))
+        elif got[0][2] != {"request_id": "req-2", "user": "alice"}:
+            chk.fail("attribute mapping received differs from the attributes sent (statement executed again after an earlier execution)", desc,
+                     dict(received=str(got[0][2])[:200], sql=got[0][1]))
+        elif got[0][1] != want_sql:
+            chk.fail("the parameters bound differ from the ones sent inline with the attributes (statement executed again)", desc,
+                     dict(received=got[0][1], expected=want_sql))
+
+
 def main():
     chk = Check("C17", sys.argv[1:])
     chk.rule = ("COM_QUERY / COM_STMT_EXECUTE with 0,1,2,3,7,8,9,16,17 attributes (values over all supported binary types and NULL; "
@@ -192,6 +246,7 @@ def main():
         for k in range(500 if not chk.thorough else 60000):
             await run_case(chk, rng, lines, impl)
         await charset_switch(chk, rng, 40 if not chk.thorough else 1500)
+        await after_failed_execution(chk, rng, 24 if not chk.thorough else 600)
 
     asyncio.run(go())
     model = drive(lines)
